@@ -132,6 +132,7 @@ func (s *Translator) translateNodePatternToStep(nodePattern *cypher.NodePattern,
 	} else {
 		// Make this the node select of the pattern part
 		part.NodeSelect.Binding = bindingResult.Binding
+		part.NodeSelect.AlreadyBound = bindingResult.AlreadyBound
 	}
 
 	if part.PatternBinding != nil {
@@ -152,7 +153,8 @@ func (s *Translator) buildNodePatternPart(part *PatternPart) error {
 	)
 
 	// The current query part may not have a frame associated with it if is a single part query component
-	if previousFrame, hasPrevious := s.previousValidFrame(partFrame); hasPrevious {
+	previousFrame, hasPrevious := s.previousValidFrame(partFrame)
+	if hasPrevious {
 		nextSelect.From = append(nextSelect.From, pgsql.FromClause{
 			Source: pgsql.TableReference{
 				Name: pgsql.CompoundIdentifier{previousFrame.Binding.Identifier},
@@ -164,12 +166,24 @@ func (s *Translator) buildNodePatternPart(part *PatternPart) error {
 
 	// UNWIND clauses collected before the first concrete node lookup become row
 	// sources for the pattern CTE that starts the MATCH pipeline.
-	nextSelect.From = append(nextSelect.From, pgsql.FromClause{
-		Source: pgsql.TableReference{
-			Name:    pgsql.CompoundIdentifier{pgsql.TableNode},
-			Binding: models.OptionalValue(part.NodeSelect.Binding.Identifier),
-		},
-	})
+	//
+	// A node the previous frame already carries is projected and constrained through that frame. Joining the
+	// node table again would multiply every row by the number of nodes.
+	if !part.NodeSelect.AlreadyBound || !hasPrevious {
+		nextSelect.From = append(nextSelect.From, pgsql.FromClause{
+			Source: pgsql.TableReference{
+				Name:    pgsql.CompoundIdentifier{pgsql.TableNode},
+				Binding: models.OptionalValue(part.NodeSelect.Binding.Identifier),
+			},
+		})
+	} else {
+		// A variable that an unmatched OPTIONAL MATCH left null matches no node.
+		nextSelect.Where = pgsql.OptionalAnd(nextSelect.Where, pgsql.NewBinaryExpression(
+			boundEndpointIDReference(previousFrame, part.NodeSelect.Binding),
+			pgsql.OperatorIsNot,
+			pgsql.NullLiteral(),
+		))
+	}
 
 	// Prepare the next select statement
 	s.query.CurrentPart().Model.AddCTE(pgsql.CommonTableExpression{
